@@ -404,7 +404,15 @@ func (w *world) Outcome() string { return w.outcome }
 // ---------------------------------------------------------------------------
 // pure Map/Drop/Reverse world with long runs
 
+type anchor struct {
+	out, src uint16
+	at       int64
+}
+
 type pureWorld struct {
+	// anchors: numbers sent just before a long run, which a receiver may
+	// still ask for after it
+	anchors  []anchor
 	m        packetmap.Map
 	start    uint16
 	cursor   int64
@@ -423,6 +431,10 @@ func (w *pureWorld) Ops() []seqx.Op {
 			ops = append(ops, op{Kind: "burst", N: n})
 		}
 		ops = append(ops, op{Kind: "alt", N: 130})
+		// long runs of withheld packets (the interval table is forgotten on the way)
+		for _, n := range []int{16400, 20000} {
+			ops = append(ops, op{Kind: "hiburst", N: n})
+		}
 	}
 	return ops
 }
@@ -446,6 +458,15 @@ func (w *pureWorld) one(p int64, hi bool) *core.Violation {
 }
 
 func (w *pureWorld) check() *core.Violation {
+	// a number sent before a long run still names its own source packet, or nothing
+	for _, a := range w.anchors {
+		if w.cursor-a.at > 30000 {
+			continue
+		}
+		if rok, rs, _ := w.m.Reverse(a.out); rok && rs != a.src {
+			return viol("reverse-names-other-packet", fmt.Sprintf("number %d was sent for source %d; after a run of withheld packets Reverse(%d) names source %d, which was never sent under that number", a.out, a.src, a.out, rs))
+		}
+	}
 	// every recently mapped number still reverses to its source; no number
 	// near a withheld position reverses to it
 	for p := w.cursor - 1; p >= 0 && p >= w.cursor-6; p-- {
@@ -520,6 +541,27 @@ func (w *pureWorld) apply(x seqx.Op) *core.Violation {
 			}
 		}
 		w.gc()
+	case "hiburst":
+		w.macro = true
+		w.long = true
+		// remember the last number sent before the run
+		for p := w.cursor - 1; p >= 0 && p >= w.cursor-4; p-- {
+			if s, ok := w.outs[p]; ok {
+				w.anchors = append(w.anchors, anchor{s, w.start + uint16(p), w.cursor})
+				break
+			}
+		}
+		for i := 0; i < o.N; i++ {
+			p := w.cursor
+			w.cursor++
+			if v := w.one(p, true); v != nil {
+				return v
+			}
+			if i&1023 == 1023 {
+				w.gc()
+			}
+		}
+		w.gc()
 	case "alt":
 		w.macro = true
 		for i := 0; i < 2*o.N; i++ {
@@ -565,7 +607,7 @@ func (w *pureWorld) Outcome() string { return w.outcome }
 func (w *pureWorld) Checkpoint() bool { return w.macro }
 func (w *pureWorld) Clone() seqx.World {
 	n := &pureWorld{start: w.start, cursor: w.cursor, outs: map[int64]uint16{}, withheld: map[int64]bool{},
-		nops: w.nops, long: w.long}
+		nops: w.nops, long: w.long, anchors: append([]anchor(nil), w.anchors...)}
 	n.m.VerifCopyFrom(&w.m)
 	for k, v := range w.outs {
 		n.outs[k] = v
